@@ -180,11 +180,11 @@ Definition cls_shared_margs (t : tree) : bool :=
   | _ => false
   end.
 
-(* 10: create_requested_attribute_node infers a missing NameFormat only while it infers a missing name or friendly
-   name: an attribute given with name AND friendly_name but without name_format - although a loaded map knows the
-   name, so that the format could be inferred as documented - is written without the required NameFormat.  The class
-   is defined on the INPUT (the attributes in force of the call hold such an item) and on the output being exactly
-   what the model of the code computes for it. *)
+(* 10 (repaired by 711f9f2e; recognises a regression): create_requested_attribute_node inferred a missing NameFormat
+   only while it inferred a missing name or friendly name: an attribute given with name AND friendly_name but without
+   name_format - although a loaded map knows the name - was written without the required NameFormat.  The class is
+   defined on the INPUT (the attributes in force of the call hold such an item) and on the output being exactly what
+   the model of the OLD code (Builders.authn_request_v0) computes for it. *)
 Definition EIDAS := "http://eidas.europa.eu/saml-extensions".
 
 Definition both_no_format (cs : list conv) (r : rattr) : bool :=
@@ -195,7 +195,7 @@ Definition cls_no_format (c : case) : bool :=
   match c_b c, c_tree c with
   | BAuthnRequest a, Some t =>
       existsb (both_no_format (ar_convs a)) (match ar_reqattrs a with [] => ar_cfg_reqattrs a | l => l end)
-      && shape_agrees1 (model_tree (c_b c)) c
+      && shape_agrees1 (Some (match authn_request_v0 a with Some o => Some (to_tree live_table o) | None => None end)) c
       && any_node (fun n => is_tag EIDAS "RequestedAttribute" n && has_a "" "Name" n && negb (has_a "" "NameFormat" n)) t
   | _, _ => false
   end.
